@@ -439,4 +439,481 @@ theorem reportFailures_inv (a : Algo) (md0 : Option Meta) (fs : List (Peer × Na
     SInv a md0 fs (reportFailures fixed a md0 fs σ) :=
   runSched_inv a md0 fs σ _ (sinv_init a md0 fs)
 
+/-- Whatever the schedule: the metadata after the failure reports is the result of applying some of
+the reports one after the other (linearizability), and if all goroutines returned, all of them. -/
+theorem reportFailures_linearizable (a : Algo) (md0 : Option Meta) (fs : List (Peer × Nat))
+    (σ : List Nat) :
+    ∃ order : List (Peer × Nat),
+      (reportFailures fixed a md0 fs σ).1.md = giveBackAll fixed a md0 order ∧
+      (∀ k ∈ order, k ∈ fs) ∧
+      (allDone AP (reportFailures fixed a md0 fs σ).2 = true → md0.isSome → order.Perm fs) := by
+  have h := reportFailures_inv a md0 fs σ
+  refine ⟨_, h.lin, h.sub, fun hd hs => ?_⟩
+  have hall : (reportFailures fixed a md0 fs σ).2.filter (fun t => decide (3 ≤ t.pc))
+      = (reportFailures fixed a md0 fs σ).2 := by
+    apply List.filter_eq_self.mpr
+    intro t ht
+    have := List.all_eq_true.mp hd t ht
+    simp only [AP, List.length_cons, List.length_nil, beq_iff_eq] at this
+    simp [this]
+  have := h.perm hs
+  rw [hall, h.keys] at this
+  exact this
+
+/-! ### The node: forwarding steps -/
+
+def relayedPeers (dest : Peer) (log : List Send) : List Peer := (relayed dest log).map (·.peer)
+
+theorem relayed_append (d : Peer) (l₁ l₂ : List Send) :
+    relayed d (l₁ ++ l₂) = relayed d l₁ ++ relayed d l₂ := by
+  simp [relayed]
+
+theorem relayedPeers_append (d : Peer) (l₁ l₂ : List Send) :
+    relayedPeers d (l₁ ++ l₂) = relayedPeers d l₁ ++ relayedPeers d l₂ := by
+  simp [relayedPeers, relayed_append]
+
+theorem relayedPeers_length (d : Peer) (l : List Send) :
+    (relayedPeers d l).length = (relayed d l).length := by simp [relayedPeers]
+
+theorem dest_not_mem_relayedPeers (d : Peer) (l : List Send) : d ∉ relayedPeers d l := by
+  simp only [relayedPeers, relayed, List.mem_map, List.mem_filter, not_exists, not_and]
+  intro x hx hxd
+  simp only [Bool.and_eq_true, bne_iff_ne] at hx
+  exact hx.2.2 hxd
+
+theorem forward_not_stored (P : Params) (s : Node) (e : Env) (h : s.stored = false) :
+    forward P s e = s := by
+  simp [forward, h]
+
+theorem forward_stored (P : Params) (s : Node) (e : Env) (h : s.stored = true) :
+    forward P s e =
+      { s with md := (forwardReports P s e).1.md, log := s.log ++ mkSends s e (choose s e).1,
+               stored := !((mkSends s e (choose s e).1).any (·.ok) && s.conn.contains s.dest) } := by
+  simp [forward, h]
+
+theorem forward_md (s : Node) (e : Env) (h : s.stored = true) :
+    ∃ order : List (Peer × Nat),
+      (forward fixed s e).md = giveBackAll fixed s.algo (choose s e).2 order ∧
+      (∀ k ∈ order, k ∈ mkReports s.algo (mkSends s e (choose s e).1)) ∧
+      (forwardComplete fixed s e = true → (choose s e).2.isSome →
+        order.Perm (mkReports s.algo (mkSends s e (choose s e).1))) := by
+  rw [forward_stored fixed s e h]
+  exact reportFailures_linearizable s.algo (choose s e).2 _ e.sched
+
+theorem mem_mkReports_spray {sends : List Send} {k : Peer × Nat} (h : k ∈ mkReports .spray sends) :
+    k.2 = 1 ∧ ∃ x ∈ sends, x.ok = false ∧ x.peer = k.1 := by
+  simp only [mkReports, List.mem_filterMap, List.mem_filter, Option.some.injEq] at h
+  obtain ⟨x, ⟨hx, hok⟩, rfl⟩ := h
+  exact ⟨rfl, x, hx, by simpa using hok, rfl⟩
+
+theorem mkSends_ok_iff (s : Node) (e : Env) (cs : List Choice) {x : Send} (h : x ∈ mkSends s e cs) :
+    x.ok = !(e.fails.contains x.peer) := by
+  simp only [mkSends, List.mem_map] at h
+  obtain ⟨c, _, rfl⟩ := h
+  rfl
+
+theorem mkSends_peers (s : Node) (e : Env) (cs : List Choice) :
+    (mkSends s e cs).map (·.peer) = cs.map (·.peer) := by
+  simp [mkSends, Function.comp_def]
+
+/-- Invariant of an originated bundle under spray-and-wait (any schedules, complete or not). -/
+structure SprayInv (s : Node) : Prop where
+  budget : (relayed s.dest s.log).length ≤ s.l - 1
+  md : ∀ m, s.md = some m →
+    m.remaining + m.sent.length = s.l ∧ (relayedPeers s.dest s.log).Sublist m.sent ∧
+    (1 ≤ s.l → 1 ≤ m.remaining)
+
+/-- The three metadata clauses give the budget. -/
+theorem budget_of_md {l : Nat} {d : Peer} {log : List Send} {m : Meta}
+    (h1 : m.remaining + m.sent.length = l) (h2 : (relayedPeers d log).Sublist m.sent)
+    (h3 : 1 ≤ l → 1 ≤ m.remaining) : (relayed d log).length ≤ l - 1 := by
+  have := h2.length_le
+  rw [relayedPeers_length] at this
+  omega
+
+theorem filter_map_sublist {α β} (q : α → Bool) (f : α → β) (l : List α) :
+    ((l.filter q).map f).Sublist (l.map f) :=
+  (List.filter_sublist (l := l) (p := q)).map f
+
+theorem forward_sprayInv (s : Node) (e : Env) (ha : s.algo = .spray) (h : SprayInv s) :
+    SprayInv (forward fixed s e) := by
+  cases hst : s.stored with
+  | false => rw [forward_not_stored _ _ _ hst]; exact h
+  | true =>
+  obtain ⟨order, hmd, hsub, _⟩ := forward_md s e hst
+  have hlog : (forward fixed s e).log = s.log ++ mkSends s e (choose s e).1 := by
+    rw [forward_stored fixed s e hst]
+  have hl : (forward fixed s e).l = s.l := by rw [forward_stored fixed s e hst]
+  have hd : (forward fixed s e).dest = s.dest := by rw [forward_stored fixed s e hst]
+  -- reduce to: the metadata clauses hold for the new log and every metadata value reachable by reports
+  suffices hkey :
+      (relayed s.dest (s.log ++ mkSends s e (choose s e).1)).length ≤ s.l - 1 ∧
+      ∀ m, giveBackAll fixed s.algo (choose s e).2 order = some m →
+        m.remaining + m.sent.length = s.l ∧
+        (relayedPeers s.dest (s.log ++ mkSends s e (choose s e).1)).Sublist m.sent ∧
+        (1 ≤ s.l → 1 ≤ m.remaining) by
+    refine ⟨by rw [hlog, hl, hd]; exact hkey.1, fun m hm => ?_⟩
+    rw [hlog, hl, hd]; rw [hmd] at hm; exact hkey.2 m hm
+  -- the reports concern failed sends of this step with one copy each
+  have hrep : ∀ k ∈ order, k.2 = 1 ∧ ∃ x ∈ mkSends s e (choose s e).1, x.ok = false ∧ x.peer = k.1 := by
+    intro k hk; have := hsub k hk; rw [ha] at this; exact mem_mkReports_spray this
+  -- a peer whose send failed in this step is not among the successfully relayed ones of this step
+  have hfailed_new : ∀ k ∈ order, k.1 ∉ relayedPeers s.dest (mkSends s e (choose s e).1) := by
+    intro k hk hmem
+    obtain ⟨_, x, hx, hxok, hxp⟩ := hrep k hk
+    simp only [relayedPeers, relayed, List.mem_map, List.mem_filter] at hmem
+    obtain ⟨y, ⟨hy, hyok⟩, hyp⟩ := hmem
+    have h1 := mkSends_ok_iff s e _ hx
+    have h2 := mkSends_ok_iff s e _ hy
+    rw [hxp] at h1; rw [hyp] at h2
+    simp only [Bool.and_eq_true] at hyok
+    rw [h1] at hxok; rw [h2] at hyok; rw [hxok] at hyok; simp at hyok
+  -- generic closing argument: clauses for md1 + reports that do not touch relayed peers
+  have hclose : ∀ m1 : Meta,
+      m1.remaining + m1.sent.length = s.l →
+      (relayedPeers s.dest (s.log ++ mkSends s e (choose s e).1)).Sublist m1.sent →
+      (1 ≤ s.l → 1 ≤ m1.remaining) →
+      (∀ k ∈ order, k.1 ∉ relayedPeers s.dest (s.log ++ mkSends s e (choose s e).1)) →
+      ∀ m, giveBackAll fixed s.algo (some m1) order = some m →
+        m.remaining + m.sent.length = s.l ∧
+        (relayedPeers s.dest (s.log ++ mkSends s e (choose s e).1)).Sublist m.sent ∧
+        (1 ≤ s.l → 1 ≤ m.remaining) := by
+    intro m1 c1 c2 c3 hnot m hm
+    obtain ⟨m', hm', hq⟩ := giveBackAll_induct s.algo
+      (fun m => m.remaining + m.sent.length = s.l ∧
+        (relayedPeers s.dest (s.log ++ mkSends s e (choose s e).1)).Sublist m.sent ∧
+        (1 ≤ s.l → 1 ≤ m.remaining)) order
+      (fun k => k.2 = 1 ∧ k.1 ∉ relayedPeers s.dest (s.log ++ mkSends s e (choose s e).1))
+      (fun k hk => ⟨(hrep k hk).1, hnot k hk⟩)
+      (fun m f ⟨q1, q2, q3⟩ ⟨r1, r2⟩ => by
+        refine ⟨?_, giveBack_sublist _ _ _ _ q2 r2, fun hl => ?_⟩
+        · rw [r1, giveBack_conserves]; exact q1
+        · exact Nat.le_trans (q3 hl) (giveBack_remaining_ge _ _ _ _))
+      m1 ⟨c1, c2, c3⟩
+    rw [hm'] at hm; cases hm; exact hq
+  by_cases hdir : s.conn.contains s.dest = true
+  · -- direct delivery: the algorithm is not consulted, nothing is relayed
+    have hch : choose s e = ([⟨s.dest, none⟩], s.md) := by unfold choose; rw [if_pos hdir]
+    have hrel : relayed s.dest (mkSends s e (choose s e).1) = [] := by
+      rw [hch]; simp [mkSends, relayed]
+    have hrelp : relayedPeers s.dest (s.log ++ mkSends s e (choose s e).1) = relayedPeers s.dest s.log := by
+      simp [relayedPeers, relayed_append, hrel]
+    refine ⟨by rw [relayed_append, hrel]; simpa using h.budget, fun m hm => ?_⟩
+    rw [hch] at hm
+    cases hmd0 : s.md with
+    | none => rw [hmd0] at hm; simp only at hm; rw [giveBackAll_none] at hm; cases hm
+    | some m0 =>
+      rw [hmd0] at hm
+      obtain ⟨c1, c2, c3⟩ := h.md m0 hmd0
+      refine hclose m0 c1 (by rw [hrelp]; exact c2) c3 (fun k hk => ?_) m hm
+      rw [hrelp]
+      obtain ⟨_, x, hx, _, hxp⟩ := hrep k hk
+      rw [hch] at hx
+      simp only [mkSends, List.map_cons, List.map_nil, List.mem_singleton] at hx
+      rw [← hxp, hx]
+      exact dest_not_mem_relayedPeers _ _
+  · -- SenderForBundle
+    have hch : choose s e = senderForBundle .spray (e.order.filter (fun p => s.conn.contains p)) s.md := by
+      unfold choose; rw [if_neg hdir, ha]
+    cases hmd0 : s.md with
+    | none =>
+      have hch' : choose s e = ([], none) := by rw [hch, hmd0]; rfl
+      refine ⟨by rw [hch']; simpa [mkSends] using h.budget, fun m hm => ?_⟩
+      rw [hch'] at hm; simp only at hm; rw [giveBackAll_none] at hm; cases hm
+    | some m0 =>
+      obtain ⟨c1, c2, c3⟩ := h.md m0 hmd0
+      by_cases hlt : m0.remaining < 2
+      · have hch' : choose s e = ([], some m0) := by rw [hch, hmd0]; simp [senderForBundle, hlt]
+        have hrelp : relayedPeers s.dest (s.log ++ mkSends s e (choose s e).1) = relayedPeers s.dest s.log := by
+          rw [hch']; simp [mkSends]
+        refine ⟨by rw [hch']; simpa [mkSends] using h.budget, fun m hm => ?_⟩
+        rw [hch'] at hm
+        refine hclose m0 c1 (by rw [hrelp]; exact c2) c3 (fun k hk => ?_) m hm
+        obtain ⟨_, x, hx, _, _⟩ := hrep k hk
+        rw [hch'] at hx; simp [mkSends] at hx
+      · have hch' : choose s e =
+            ((sprayPick (e.order.filter (fun p => s.conn.contains p)) m0).1.map (fun p => ⟨p, none⟩),
+             some (sprayPick (e.order.filter (fun p => s.conn.contains p)) m0).2) := by
+          rw [hch, hmd0]; simp [senderForBundle, hlt]
+        obtain ⟨p1, p2, p3, _, p5⟩ := sprayPick_spec (e.order.filter (fun p => s.conn.contains p)) m0
+        generalize sprayPick (e.order.filter (fun p => s.conn.contains p)) m0 = r at hch' p1 p2 p3 p5
+        have hpeers : (mkSends s e (choose s e).1).map (·.peer) = r.1 := by
+          rw [mkSends_peers, hch']; simp [Function.comp_def]
+        -- clauses for the metadata written by SenderForBundle
+        have d1 : r.2.remaining + r.2.sent.length = s.l := by
+          rw [p1, List.length_append]; omega
+        have d2 : (relayedPeers s.dest (s.log ++ mkSends s e (choose s e).1)).Sublist r.2.sent := by
+          rw [relayedPeers_append, p1]
+          refine List.Sublist.append c2 ?_
+          rw [← hpeers]
+          exact filter_map_sublist _ _ _
+        have d3 : 1 ≤ s.l → 1 ≤ r.2.remaining := fun hl => p3 (c3 hl)
+        have hall : ∀ m, giveBackAll fixed s.algo (choose s e).2 order = some m →
+            m.remaining + m.sent.length = s.l ∧
+            (relayedPeers s.dest (s.log ++ mkSends s e (choose s e).1)).Sublist m.sent ∧
+            (1 ≤ s.l → 1 ≤ m.remaining) := by
+          intro m hm
+          rw [hch'] at hm
+          refine hclose r.2 d1 d2 d3 (fun k hk => ?_) m hm
+          rw [relayedPeers_append]
+          intro hmem
+          rcases List.mem_append.mp hmem with hold | hnew
+          · -- a peer picked now was not in `sent`, hence not relayed before
+            obtain ⟨_, x, hx, _, hxp⟩ := hrep k hk
+            have : x.peer ∈ r.1 := by rw [← hpeers]; exact List.mem_map_of_mem hx
+            rw [hxp] at this
+            exact (p5 k.1 this).1 (c2.subset hold)
+          · exact hfailed_new k hk hnew
+        obtain ⟨mfin, hmfin⟩ := giveBackAll_some fixed s.algo r.2 order
+        have hfin := hall mfin (by rw [hch']; exact hmfin)
+        exact ⟨budget_of_md hfin.1 hfin.2.1 hfin.2.2, hall⟩
+
+/-! ### Steps and histories -/
+
+/-- The configuration of the node does not change. -/
+theorem forward_config (P : Params) (s : Node) (e : Env) :
+    (forward P s e).algo = s.algo ∧ (forward P s e).l = s.l ∧ (forward P s e).dest = s.dest ∧
+    (forward P s e).bblock = s.bblock ∧ (forward P s e).conn = s.conn := by
+  cases hst : s.stored with
+  | false => rw [forward_not_stored _ _ _ hst]; simp
+  | true => rw [forward_stored _ _ _ hst]; simp
+
+theorem prepare_config (s : Node) (ev : Event) :
+    (prepare s ev).1.algo = s.algo ∧ (prepare s ev).1.l = s.l ∧ (prepare s ev).1.dest = s.dest := by
+  cases ev <;> simp [prepare]
+
+theorem step_config (P : Params) (s : Node) (ev : Event) :
+    (step P s ev).algo = s.algo ∧ (step P s ev).l = s.l ∧ (step P s ev).dest = s.dest := by
+  have hp := prepare_config s ev
+  unfold step
+  split
+  · next s' e heq =>
+    have hf := forward_config P s' e
+    rw [heq] at hp
+    exact ⟨hf.1.trans hp.1, hf.2.1.trans hp.2.1, hf.2.2.1.trans hp.2.2⟩
+  · next s' heq => rw [heq] at hp; exact hp
+
+theorem run_config (P : Params) (s : Node) (evs : List Event) :
+    (run P s evs).algo = s.algo ∧ (run P s evs).l = s.l ∧ (run P s evs).dest = s.dest := by
+  induction evs generalizing s with
+  | nil => exact ⟨rfl, rfl, rfl⟩
+  | cons ev evs ih =>
+    have h1 := step_config P s ev
+    have h2 := ih (step P s ev)
+    simp only [run, List.foldl_cons] at h2 ⊢
+    exact ⟨h2.1.trans h1.1, h2.2.1.trans h1.2.1, h2.2.2.trans h1.2.2⟩
+
+theorem run_append (P : Params) (s : Node) (e₁ e₂ : List Event) :
+    run P s (e₁ ++ e₂) = run P (run P s e₁) e₂ := by simp [run, List.foldl_append]
+
+theorem run_cons (P : Params) (s : Node) (ev : Event) (evs : List Event) :
+    run P s (ev :: evs) = run P (step P s ev) evs := rfl
+
+/-- Before the bundle enters the node nothing is stored, nothing is sent. -/
+def Fresh (s : Node) : Prop := s.stored = false ∧ s.log = []
+
+theorem step_fresh (P : Params) (s : Node) (ev : Event) (hne : ev.isEntry = false) (h : Fresh s) :
+    Fresh (step P s ev) := by
+  cases ev with
+  | submit e => simp [Event.isEntry] at hne
+  | receive b p e => simp [Event.isEntry] at hne
+  | peerUp p e =>
+    simp only [step, prepare]
+    rw [forward_not_stored _ _ _ (by exact h.1)]; exact h
+  | peerDown p => exact h
+  | tick e => simp only [step, prepare]; rw [forward_not_stored _ _ _ h.1]; exact h
+  | restart => exact h
+
+theorem run_fresh (P : Params) (s : Node) (evs : List Event) (hne : ∀ ev ∈ evs, ev.isEntry = false)
+    (h : Fresh s) : Fresh (run P s evs) := by
+  induction evs generalizing s with
+  | nil => exact h
+  | cons ev evs ih =>
+    rw [run_cons]
+    exact ih _ (fun x hx => hne x (List.mem_cons_of_mem _ hx)) (step_fresh P s ev (hne ev (List.mem_cons_self ..)) h)
+
+/-- A property of the node that survives the bookkeeping part of every non-entry event and every
+forwarding step survives every history without entry events. -/
+theorem run_preserves (Q : Node → Prop)
+    (hprep : ∀ s ev, ev.isEntry = false → Q s → Q (prepare s ev).1)
+    (hfwd : ∀ s e, Q s → Q (forward fixed s e))
+    (s : Node) (evs : List Event) (hne : ∀ ev ∈ evs, ev.isEntry = false) (h : Q s) :
+    Q (run fixed s evs) := by
+  induction evs generalizing s with
+  | nil => exact h
+  | cons ev evs ih =>
+    rw [run_cons]
+    refine ih _ (fun x hx => hne x (List.mem_cons_of_mem _ hx)) ?_
+    have := hprep s ev (hne ev (List.mem_cons_self ..)) h
+    unfold step
+    split
+    · next s' e heq => rw [heq] at this; exact hfwd s' e this
+    · next s' heq => rw [heq] at this; exact this
+
+theorem prepare_sprayInv (s : Node) (ev : Event) (hne : ev.isEntry = false)
+    (h : s.algo = .spray ∧ SprayInv s) : (prepare s ev).1.algo = .spray ∧ SprayInv (prepare s ev).1 := by
+  obtain ⟨ha, h⟩ := h
+  cases ev with
+  | submit e => simp [Event.isEntry] at hne
+  | receive b p e => simp [Event.isEntry] at hne
+  | peerUp p e => exact ⟨ha, ⟨h.budget, h.md⟩⟩
+  | peerDown p => exact ⟨ha, ⟨h.budget, h.md⟩⟩
+  | tick e => exact ⟨ha, h⟩
+  | restart => exact ⟨ha, ⟨h.budget, fun m hm => by simp [prepare] at hm⟩⟩
+
+theorem submit_sprayInv (s : Node) (e : Env) (ha : s.algo = .spray) (hf : Fresh s) :
+    SprayInv (step fixed s (.submit e)) := by
+  simp only [step, prepare]
+  refine forward_sprayInv _ e ha ⟨?_, ?_⟩
+  · simp [hf.2, relayed]
+  · intro m hm
+    simp only [notify, ha, Option.some.injEq] at hm
+    subst hm
+    simp [hf.2, relayedPeers, relayed]
+
+/-- Spray-and-wait, bundle originated here: the invariant holds after every history
+`pre ++ submit :: rest` in which the bundle enters the node once. -/
+theorem spray_run_inv (s : Node) (ha : s.algo = .spray) (hf : Fresh s) (pre rest : List Event)
+    (e : Env) (hpre : ∀ ev ∈ pre, ev.isEntry = false) (hrest : ∀ ev ∈ rest, ev.isEntry = false) :
+    SprayInv (run fixed s (pre ++ .submit e :: rest)) := by
+  rw [run_append, run_cons]
+  have hc := run_config fixed s pre
+  have h1 : SprayInv (step fixed (run fixed s pre) (.submit e)) :=
+    submit_sprayInv _ e (hc.1.trans ha) (run_fresh fixed s pre hpre hf)
+  have ha1 : (step fixed (run fixed s pre) (.submit e)).algo = .spray :=
+    (step_config fixed _ _).1.trans (hc.1.trans ha)
+  exact (run_preserves (fun s => s.algo = .spray ∧ SprayInv s) prepare_sprayInv
+    (fun s e h => ⟨(forward_config fixed s e).1.trans h.1, forward_sprayInv s e h.1 h.2⟩)
+    _ rest hrest ⟨ha1, h1⟩).2
+
+/-! ### Complete schedules: exact accounting -/
+
+theorem length_filter_partition {α} (q : α → Bool) (l : List α) :
+    (l.filter q).length + (l.filter (fun x => !q x)).length = l.length := by
+  induction l with
+  | nil => rfl
+  | cons x xs ih => cases hq : q x <;> simp [List.filter_cons, hq] <;> omega
+
+theorem sum_snd_eq_length (l : List (Peer × Nat)) (h : ∀ k ∈ l, k.2 = 1) :
+    (l.map (·.2)).sum = l.length := by
+  induction l with
+  | nil => rfl
+  | cons x xs ih =>
+    simp only [List.map_cons, List.sum_cons, List.length_cons]
+    rw [ih (fun k hk => h k (List.mem_cons_of_mem _ hk)), h x (List.mem_cons_self ..)]; omega
+
+theorem forwardSends_stored (s : Node) (e : Env) (h : s.stored = true) :
+    forwardSends s e = mkSends s e (choose s e).1 := by simp [forwardSends, h]
+
+theorem mkReports_spray_fst (sends : List Send) :
+    (mkReports .spray sends).map (·.1) = (sends.filter (fun x => !x.ok)).map (·.peer) := by
+  simp only [mkReports]
+  induction sends.filter (fun x => !x.ok) with
+  | nil => rfl
+  | cons x xs ih => simp [List.filterMap_cons, ih]
+
+theorem mkReports_spray_length (sends : List Send) :
+    (mkReports .spray sends).length = (sends.filter (fun x => !x.ok)).length := by
+  have := congrArg List.length (mkReports_spray_fst sends)
+  simpa using this
+
+/-- If nobody that is reported is in `sent`, the reports change nothing. -/
+theorem giveBackAll_noop (a : Algo) (m : Meta) (order : List (Peer × Nat))
+    (h : ∀ k ∈ order, k.1 ∉ m.sent) : giveBackAll fixed a (some m) order = some m := by
+  obtain ⟨m', hm', hq⟩ := giveBackAll_induct a (fun x => x = m) order (fun k => k.1 ∉ m.sent) h
+    (fun x f hx hf => by subst hx; exact giveBack_not_mem hf) m rfl
+  rw [hm', hq]
+
+theorem not_direct_of_mem_cands {s : Node} {e : Env} {p : Peer}
+    (hdir : ¬ s.conn.contains s.dest = true)
+    (hp : p ∈ e.order.filter (fun p => s.conn.contains p)) : p ≠ s.dest := by
+  intro h
+  simp only [List.mem_filter] at hp
+  rw [h] at hp
+  exact hdir hp.2
+
+/-- Spray-and-wait, one forwarding step whose failure reports all finish: the count drops by the
+number of successful transmissions to non-destination peers, `sent` grows by the same number. -/
+theorem forward_spray_exact (s : Node) (e : Env) (ha : s.algo = .spray) (hst : s.stored = true)
+    (m : Meta) (hm : s.md = some m) (hd : s.dest ∉ m.sent)
+    (hc : forwardComplete fixed s e = true) :
+    ∃ m', (forward fixed s e).md = some m' ∧ s.dest ∉ m'.sent ∧
+      m'.remaining + (relayed s.dest (forwardSends s e)).length = m.remaining ∧
+      m'.sent.length = m.sent.length + (relayed s.dest (forwardSends s e)).length := by
+  obtain ⟨order, hmd, hsub, hperm⟩ := forward_md s e hst
+  rw [forwardSends_stored s e hst]
+  have hrep : ∀ k ∈ order, k.2 = 1 ∧ ∃ x ∈ mkSends s e (choose s e).1, x.ok = false ∧ x.peer = k.1 := by
+    intro k hk; have := hsub k hk; rw [ha] at this; exact mem_mkReports_spray this
+  by_cases hdir : s.conn.contains s.dest = true
+  · have hch : choose s e = ([⟨s.dest, none⟩], s.md) := by unfold choose; rw [if_pos hdir]
+    have hrel : relayed s.dest (mkSends s e (choose s e).1) = [] := by
+      rw [hch]; simp [mkSends, relayed]
+    refine ⟨m, ?_, hd, by simp [hrel], by simp [hrel]⟩
+    rw [hmd, hch, hm]
+    refine giveBackAll_noop _ m order (fun k hk => ?_)
+    obtain ⟨_, x, hx, _, hxp⟩ := hrep k hk
+    rw [hch] at hx
+    simp only [mkSends, List.map_cons, List.map_nil, List.mem_singleton] at hx
+    rw [← hxp, hx]; exact hd
+  · have hch : choose s e = senderForBundle .spray (e.order.filter (fun p => s.conn.contains p)) s.md := by
+      unfold choose; rw [if_neg hdir, ha]
+    by_cases hlt : m.remaining < 2
+    · have hch' : choose s e = ([], some m) := by rw [hch, hm]; simp [senderForBundle, hlt]
+      refine ⟨m, ?_, hd, by rw [hch']; simp [mkSends, relayed], by rw [hch']; simp [mkSends, relayed]⟩
+      rw [hmd, hch']
+      refine giveBackAll_noop _ m order (fun k hk => ?_)
+      obtain ⟨_, x, hx, _, _⟩ := hrep k hk
+      rw [hch'] at hx; simp [mkSends] at hx
+    · have hch' : choose s e =
+          ((sprayPick (e.order.filter (fun p => s.conn.contains p)) m).1.map (fun p => ⟨p, none⟩),
+           some (sprayPick (e.order.filter (fun p => s.conn.contains p)) m).2) := by
+        rw [hch, hm]; simp [senderForBundle, hlt]
+      obtain ⟨p1, p2, _, p4, p5⟩ := sprayPick_spec (e.order.filter (fun p => s.conn.contains p)) m
+      generalize sprayPick (e.order.filter (fun p => s.conn.contains p)) m = r at hch' p1 p2 p4 p5
+      have hpeers : (mkSends s e (choose s e).1).map (·.peer) = r.1 := by
+        rw [mkSends_peers, hch']; simp [Function.comp_def]
+      have hlen : (mkSends s e (choose s e).1).length = r.1.length := by
+        rw [← hpeers]; simp
+      -- no pick is the destination
+      have hnd : ∀ x ∈ mkSends s e (choose s e).1, x.peer ≠ s.dest := by
+        intro x hx
+        have : x.peer ∈ r.1 := by rw [← hpeers]; exact List.mem_map_of_mem hx
+        exact not_direct_of_mem_cands hdir (p5 _ this).2
+      have hrel : relayed s.dest (mkSends s e (choose s e).1)
+          = (mkSends s e (choose s e).1).filter (·.ok) := by
+        unfold relayed
+        apply List.filter_congr
+        intro x hx
+        have := hnd x hx
+        simp [this]
+      -- the reports: all of them, each for a distinct peer recorded in `sent`
+      have hperm' := hperm hc (by rw [hch']; rfl)
+      rw [ha] at hperm'
+      have hfst : (order.map (·.1)).Perm ((mkSends s e (choose s e).1).filter (fun x => !x.ok) |>.map (·.peer)) := by
+        rw [← mkReports_spray_fst]; exact hperm'.map _
+      have hsubl : (((mkSends s e (choose s e).1).filter (fun x => !x.ok)).map (·.peer)).Sublist r.1 := by
+        rw [← hpeers]; exact filter_map_sublist _ _ _
+      have hnodup : (order.map (·.1)).Nodup := hfst.nodup_iff.mpr (hsubl.nodup p4)
+      have hin : ∀ f ∈ order, f.1 ∈ r.2.sent := by
+        intro f hf
+        have : f.1 ∈ order.map (·.1) := List.mem_map_of_mem hf
+        rw [p1]
+        exact List.mem_append_right _ (hsubl.subset (hfst.subset this))
+      obtain ⟨m', e1, e2, e3, _, _, e6⟩ := giveBackAll_exact .spray order r.2 hnodup hin
+      have hsum := sum_snd_eq_length order (fun k hk => (hrep k hk).1)
+      have holen : order.length = ((mkSends s e (choose s e).1).filter (fun x => !x.ok)).length := by
+        rw [hperm'.length_eq, mkReports_spray_length]
+      have hpart := length_filter_partition (fun x : Send => x.ok) (mkSends s e (choose s e).1)
+      refine ⟨m', by rw [hmd, hch', ha]; exact e1, ?_, ?_, ?_⟩
+      · intro hmem
+        have := e6.subset hmem
+        rw [p1] at this
+        rcases List.mem_append.mp this with h1 | h2
+        · exact hd h1
+        · exact not_direct_of_mem_cands hdir (p5 _ h2).2 rfl
+      · rw [hrel, e2, hsum]; omega
+      · rw [hrel]
+        have : r.2.sent.length = m.sent.length + r.1.length := by rw [p1]; simp
+        omega
+
 end Dtn7.Spray.Lemmas
